@@ -2,6 +2,7 @@ from construct.core import ConstructError
 from construct.core import Subconstruct
 from construct.core import Switch
 from construct.expr import this
+from struct import error as StructError
 
 from smpl_extract.util.fat import RequestedInvalidSector
 from smpl_extract.util.stream import SectorReadError
@@ -41,7 +42,7 @@ class FileAdapter(Subconstruct):
                 stream, 
                 **context
             )
-        except (RequestedInvalidSector, InvalidCharacter, SectorReadError) as e:
+        except (RequestedInvalidSector, InvalidCharacter, SectorReadError, StructError) as e:
             raise ConstructError from e
 
         return file
